@@ -78,6 +78,11 @@ def main():
         # 3. generated fragments + full make + driver
         ctx.build = core.coq_build(all_generators())
         ctx.props = core.check_props_file(pid)
+        if args.tier == "thorough" and not args.replay and ctx.props["ok"]:
+            ctx.coqchk = core.run_coqchk(pid)
+            if not ctx.coqchk["ok"]:
+                ctx.props["ok"] = False
+                ctx.props["log"] = "coqchk rejects the compiled closure: " + ctx.coqchk["log"][-800:]
         if probs:
             ctx.build["fatal"] = "HYGIENE: " + "; ".join(probs)
         if args.replay:
@@ -118,6 +123,11 @@ def main():
         "build": {"ok": bool(ctx.build and ctx.build["ok"]), "wall_s": round((ctx.build or {}).get("wall_s", 0), 1),
                   "failed": (ctx.build or {}).get("failed", [])},
     }
+    if getattr(ctx, "coqchk", None):
+        cov["coqchk"] = ctx.coqchk
+        cov["checker_cmd"] += " && " + ctx.coqchk["cmd"]
+        cov["trusted_base"].append("coqchk -o (independent re-check of the .vo closure): axioms = %s; type-in-type = %s; unsafe fixpoints = %s; assumed positivity = %s"
+                                   % (ctx.coqchk.get("axioms"), ctx.coqchk.get("type_in_type"), ctx.coqchk.get("unsafe_fixpoints"), ctx.coqchk.get("assumed_positivity")))
     cov.update(coverage)
     core.write_evidence(ctx, cov, getattr(mod, "ASSUMPTIONS", []))
     for k in ctx.known_hits:
